@@ -64,7 +64,7 @@ struct Def {
 };
 static void run_join(Src &s) {
   static const std::vector<std::string> secs = {"", "A", "B"};
-  static const std::vector<std::string> keys = {"k1", "k2", "k3"};
+  static const std::vector<std::string> keys = {"k1", "k2", "k3", "k1x"};  // (k1 is a proper prefix of k1x)
   Alphabet a = make_alphabet("=#\"");
   std::map<std::pair<std::string, std::string>, std::vector<Def>> defs;
   std::vector<std::pair<std::string, std::string>> order;
@@ -92,7 +92,7 @@ static void run_join(Src &s) {
       nlines++;
       continue;
     }
-    std::string key = keys[s.below(3)];
+    std::string key = keys[s.below(4)];
     Def d;
     if (s.chance(25)) {
       // empty definition: "k =" (value "") or "k=" (no value)
